@@ -58,7 +58,9 @@ pub(crate) fn abi_eq(a: ClangAbi, b: ClangAbi) -> bool {
 // ---------------------------------------------------------------- C04: get_abi
 // Independent table (clang-c/Index.h enum CXCallingConv x Rust reference ABI strings).
 fn abi_oracle(cc: CXCallingConv) -> ClangAbi {
-    if cc == clang_sys::CXCallingConv_Default || cc == clang_sys::CXCallingConv_C {
+    if cc == clang_sys::CXCallingConv_Default
+        || cc == clang_sys::CXCallingConv_C
+    {
         ClangAbi::Known(Abi::C)
     } else if cc == clang_sys::CXCallingConv_X86StdCall {
         ClangAbi::Known(Abi::Stdcall)
@@ -66,7 +68,9 @@ fn abi_oracle(cc: CXCallingConv) -> ClangAbi {
         ClangAbi::Known(Abi::Fastcall)
     } else if cc == clang_sys::CXCallingConv_X86ThisCall {
         ClangAbi::Known(Abi::ThisCall)
-    } else if cc == clang_sys::CXCallingConv_X86VectorCall || cc == clang_sys::CXCallingConv_AArch64VectorCall {
+    } else if cc == clang_sys::CXCallingConv_X86VectorCall
+        || cc == clang_sys::CXCallingConv_AArch64VectorCall
+    {
         ClangAbi::Known(Abi::Vectorcall)
     } else if cc == clang_sys::CXCallingConv_AAPCS {
         ClangAbi::Known(Abi::Aapcs)
@@ -88,15 +92,24 @@ pub(crate) fn get_abi_table() {
 #[kani::proof]
 pub(crate) fn get_abi_twin() {
     let cc: CXCallingConv = kani::any();
-    assert!(abi_eq(get_abi(cc), abi_oracle(cc)), "postcondition: get_abi == calling-convention table");
+    assert!(
+        abi_eq(get_abi(cc), abi_oracle(cc)),
+        "postcondition: get_abi == calling-convention table"
+    );
 }
 #[kani::proof]
 pub(crate) fn get_abi_canary() {
     let cc: CXCallingConv = kani::any();
     let r = get_abi(cc);
-    kani::cover!(matches!(r, ClangAbi::Unknown(_)), "unknown convention reachable");
+    kani::cover!(
+        matches!(r, ClangAbi::Unknown(_)),
+        "unknown convention reachable"
+    );
     kani::cover!(abi_eq(r, ClangAbi::Known(Abi::Win64)), "win64 reachable");
-    kani::cover!(abi_eq(r, ClangAbi::Known(Abi::C)) && cc != clang_sys::CXCallingConv_C, "default maps to C");
+    kani::cover!(
+        abi_eq(r, ClangAbi::Known(Abi::C)) && cc != clang_sys::CXCallingConv_C,
+        "default maps to C"
+    );
 }
 
 // ---------------------------------------------------------------- C08: >12-argument fn pointers
@@ -110,7 +123,11 @@ macro_rules! fnptr_rule {
         pub(crate) fn $name() {
             let abi = any_abi();
             let sig = mk_sig($n, abi);
-            let want = $n <= 12 && matches!(abi, ClangAbi::Known(Abi::C) | ClangAbi::Unknown(_));
+            let want = $n <= 12
+                && matches!(
+                    abi,
+                    ClangAbi::Known(Abi::C) | ClangAbi::Unknown(_)
+                );
             assert!(sig.function_pointers_can_derive() == want);
         }
     };
